@@ -125,7 +125,7 @@ def first (w : World) (input : JVal) (source : Option U) : Except Unit (O × Opt
   | .str s =>
     match w.parse s with
     | none => .error ()
-    | some ref => match w.fetch (w.resolve source ref).str with
+    | some ref => match w.fetch (w.target source ref).str with
       | some (o, src) => .ok (o, some src)
       | none => .error ()
   | .obj kvs => .ok (kvs, source)
@@ -134,7 +134,7 @@ def first (w : World) (input : JVal) (source : Option U) : Except Unit (O × Opt
 theorem first_inv {w : World} {input : JVal} {source : Option U} {o0 : O} {src0 : Option U}
     (h : first w input source = .ok (o0, src0)) :
     (∃ ref u src, input = .str ref ∧ w.parse ref = some u ∧
-        w.fetch (w.resolve source u).str = some (o0, src) ∧ src0 = some src) ∨
+        w.fetch (w.target source u).str = some (o0, src) ∧ src0 = some src) ∨
     (input = .obj o0 ∧ src0 = source) := by
   unfold first at h
   split at h
@@ -262,12 +262,12 @@ theorem second_foreign {w : World} {o0 : O} {s id : U} {r : O × Option U}
 theorem fetchUnknown_inv {w : World} {input : JVal} {source : Option U} {o : O} {id : U}
     (h : fetchUnknown w input source = .ok (o, some id)) :
     (∃ o0 id0 src, (input = .obj o0 ∨ ∃ ref u src0, input = .str ref ∧ w.parse ref = some u ∧
-          w.fetch (w.resolve source u).str = some (o0, src0)) ∧
+          w.fetch (w.target source u).str = some (o0, src0)) ∧
         getId w o0 = .ok (some id0) ∧ w.fetch id0.str = some (o, src) ∧
         src.host = id.host ∧ getId w o = .ok (some id)) ∨
     (∃ s, source = some s ∧ s.host = id.host ∧ input = .obj o) ∨
     (∃ ref src, input = .str ref ∧ src.host = id.host ∧
-        ∃ u, w.parse ref = some u ∧ w.fetch (w.resolve source u).str = some (o, src)) := by
+        ∃ u, w.parse ref = some u ∧ w.fetch (w.target source u).str = some (o, src)) := by
   obtain ⟨o0, src0, hf, hs⟩ := fetchUnknown_split h
   rcases second_inv hs with ⟨s, hs0, hh, ho, _⟩ | ⟨id0, src', hid0, hfe, hh, hid⟩
   · subst ho
@@ -322,7 +322,7 @@ theorem fetchUnknown_provenance {w : World} {input : JVal} {source : Option U} {
   · exact ⟨id0.str, o, src, hf, hh, Sub.refl _⟩
   · rw [← hh]
     exact hpre s o hs hi
-  · exact ⟨(w.resolve source u).str, o, src, hf, hh, Sub.refl _⟩
+  · exact ⟨(w.target source u).str, o, src, hf, hh, Sub.refl _⟩
 
 theorem fetchUnknown_hs {w : World} {input : JVal} {source : Option U} {o : O} {id : Option U}
     (hpre : Pre w input source) (h : fetchUnknown w input source = .ok (o, id)) : HS w o id := by
